@@ -154,6 +154,8 @@ def checkShape : Bool :=
   T.isStart.length == G.prods.length &&
   T.fallible.length == G.prods.length &&
   0 < nS &&
+  -- the error terminal (last terminal) exists whenever the parser uses error recovery
+  (!T.usesRecovery || 0 < G.nTerm) &&
   T.action.all (fun a => (a > 0 → (a - 1).toNat < nS) && (a < 0 → (-(a + 1)).toNat < G.prods.length)) &&
   T.eofAction.all (fun a => a ≤ 0 && (a < 0 → (-(a + 1)).toNat < G.prods.length)) &&
   G.prods.all (fun pr => pr.lhs < G.nNT && pr.rhs.all (fun X => match X with
@@ -277,6 +279,67 @@ def validateComplete : Bool :=
   checkShape G T A && checkStart G T && checkFirst G ann && checkItems G T A ann
 
 def validate : Bool := validateSound G T A && validateComplete G T A ann
+
+/-! ### V5/V6: extra checks for the valid-prefix properties (C04/C05)
+
+NOT part of `validate`: lalrpop accepts grammars with reachable nonterminals that derive no
+terminal string, and for those the valid-prefix property is simply false. `Lemmas/LRPrefix*.lean`
+use these two clauses in addition to `validate`. -/
+
+/-- one round of the productive-nonterminal computation: `B` is marked when some production of
+    `B` has only terminals and marked nonterminals on its right-hand side -/
+def productiveRound (P : List Bool) : List Bool :=
+  (List.range G.nNT).map fun B =>
+    P.getD B false || G.prods.any fun pr => pr.lhs == B && pr.rhs.all fun X =>
+      match X with
+      | .t _ => true
+      | .n C => P.getD C false
+
+def productiveIter : Nat → List Bool → List Bool
+  | 0, P => P
+  | k + 1, P => productiveIter k (productiveRound G P)
+
+/-- nonterminals that derive some terminal string (`nNT + 1` rounds reach the least fixpoint) -/
+def productiveSet : List Bool := productiveIter G (G.nNT + 1) (List.replicate G.nNT false)
+
+/-- one round of the reachable-nonterminal computation -/
+def reachRound (R : List Bool) : List Bool :=
+  (List.range G.nNT).map fun B =>
+    R.getD B false || G.prods.any fun pr => R.getD pr.lhs false && pr.rhs.contains (Sym.n B)
+
+def reachIter : Nat → List Bool → List Bool
+  | 0, R => R
+  | k + 1, R => reachIter k (reachRound G R)
+
+/-- nonterminals reachable from the lhs of the start production (unverified computation; the
+    check below only needs the set to contain the start lhs and to be closed) -/
+def reachSet : List Bool :=
+  match G.prods[G.startProd]? with
+  | some sp => reachIter G (G.nNT + 1) ((List.replicate G.nNT false).set sp.lhs true)
+  | none => []
+
+/-- V5: the reachable set contains the start lhs and is closed under "occurs in a rhs of a
+    production of a reachable nonterminal", every nonterminal occurring in such a rhs is
+    productive, and no state of the automaton has an empty item set -/
+def checkProductive : Bool :=
+  let R := reachSet G
+  let P := productiveSet G
+  (match G.prods[G.startProd]? with
+   | some sp => R.getD sp.lhs false
+   | none => false) &&
+  G.prods.all (fun pr => !R.getD pr.lhs false || pr.rhs.all fun X =>
+    match X with
+    | .t _ => true
+    | .n B => R.getD B false && P.getD B false) &&
+  A.states.all (fun st => !st.cores.isEmpty)
+
+/-- V6: no entry of the ACTION table (terminal lookahead) reduces the start production, so
+    `__reduce` answers `Some(Ok(..))` at end of input only (no `ExtraToken`) -/
+def checkStartEof : Bool :=
+  T.action.all fun a => a != -((G.startProd : Int) + 1)
+
+/-- V5 and V6 together -/
+def validatePrefix : Bool := checkProductive G A && checkStartEof G T
 
 end
 
